@@ -645,7 +645,11 @@ func (dec *Decoder) defaultDecode(t reflect.Type, p interface{}, tag byte) {
 		return
 	case TagClass:
 		dec.ReadStruct(t)
-		dec.Decode(p)
+		// a class definition in front of a value is a level of recursion as well
+		if dec.enter() {
+			dec.Decode(p)
+			dec.leave()
+		}
 		return
 	case TagError:
 		var s string
